@@ -110,7 +110,10 @@ CLAIMS = {
          "C07_delay_order / C07_observe_on_order (the t-th task carries the t-th relayed notification; whenever tasks are run in scheduling "
          "order - a FIFO executor - the deliveries are a sub-sequence of the input in input order), C07_delay_fifo_complete / "
          "C07_observe_on_fifo_complete (a FIFO executor polling as timers fall due delivers everything, in order, each exactly the delay "
-         "late), C07_delay_error_prefix (a failing source: the error at once and nothing else), plus the single-task theorems "
+         "late), C07_delay_complete / C07_observe_on_complete (under EVERY executor: a notification whose task is polled when it is due - no "
+         "delay, or the timer its first poll created has elapsed - while the subscriber still listens is delivered by that very poll, and a "
+         "directly forwarded error by the call that brought it: nothing is lost, whatever the polling order), "
+         "C07_delay_error_prefix (a failing source: the error at once and nothing else), plus the single-task theorems "
          "C07_never_early / _at_most_once / _not_after_unsubscribe. The same predicates judge every implementation trace, and full traces are "
          "compared with the timed model: all label sequences <= 4 plus 4k random ones per operator and form on the crate's hook scheduler with a "
          "virtual clock, and the _at forms' requested durations. Order preservation is NOT claimed for executors that run ready tasks out of "
